@@ -7,7 +7,7 @@
     *every* admissible view, i.e. every permutation of the indexed samples that
     is sorted by duration ([C05_admissible_meaning]). *)
 From Coq Require Import Permutation Sorted.
-From DivanV Require Import Base.Res Model.Stats Proofs.Stats Proofs.StatsProv.
+From DivanV Require Import Base.Res Model.Stats Proofs.Stats Proofs.StatsProv Proofs.StatsSb.
 Local Open Scope N_scope.
 
 Theorem C05_admissible_meaning : forall durs sv,
@@ -153,3 +153,73 @@ Theorem C05_per_iter_model_sb : forall input_counts ssize,
   per_iter_sb input_counts ssize (per_iter_count input_counts ssize) = true.
 Proof. exact per_iter_model_sb. Qed.
 Print Assumptions C05_per_iter_model_sb.
+
+(** What the boolean specification says (it is evaluated on the
+    implementation's outputs; these lemmas keep it readable). *)
+Theorem C05_sb_meaning : forall inp out,
+  stats_sb inp out = true <->
+  (in_domain inp = true ->
+   exists st, out = Ok st /\ time_ok inp st = true /\ forallb xq_is_fin (all_xq st) = true /\
+              presence_ok inp st = true /\ means_ok inp st = true /\ provenance_ok inp st = true).
+Proof. exact stats_sb_spec. Qed.
+Print Assumptions C05_sb_meaning.
+
+Theorem C05_sb_time_meaning : forall inp st,
+  time_ok inp st = true <->
+  st_sample_count st = N.of_nat (length (in_durs inp)) mod 2 ^ 32 /\
+  st_iter_count st = in_size inp * N.of_nat (length (in_durs inp)) /\
+  fastest (st_time st) = spec_fastest (in_durs inp) (in_size inp) /\
+  slowest (st_time st) = spec_slowest (in_durs inp) (in_size inp) /\
+  median (st_time st) = spec_median (in_durs inp) (in_size inp) /\
+  mean (st_time st) = spec_mean (in_durs inp) (in_size inp) /\
+  fastest (st_time st) <= median (st_time st) <= slowest (st_time st) /\
+  fastest (st_time st) <= mean (st_time st) <= slowest (st_time st).
+Proof. exact time_ok_spec. Qed.
+Print Assumptions C05_sb_time_meaning.
+
+Theorem C05_sb_provenance_meaning : forall inp st,
+  provenance_ok inp st = true <->
+  match in_durs inp with
+  | [] => Forall (fun x => xq_eqb x (Fin 0 1) = true)
+                 (column_of fastest st ++ column_of slowest st ++ column_of median st)
+  | _ => column_from_one fastest fastest inp st (list_min (in_durs inp)) = true /\
+         column_from_one slowest slowest inp st (list_max (in_durs inp)) = true /\
+         (if Nat.even (length (in_durs inp)) then median_from_two inp st = true
+          else column_from_one median median inp st (mid_hi (in_durs inp)) = true)
+  end.
+Proof. exact provenance_ok_spec. Qed.
+Print Assumptions C05_sb_provenance_meaning.
+
+Theorem C05_sb_column_meaning : forall selq seln inp st d,
+  column_from_one selq seln inp st d = true <->
+  exists smp, In smp (indexed (in_durs inp)) /\ snd smp = d /\
+    Forall2 (fun x v => xq_close x (Fin v (in_size inp)) = true)
+            (column_of selq st) (figures_of_index inp (fst smp)) /\
+    Forall2 (fun ci o => forall set, o = Some set -> exists c, count_for ci smp = Some c /\ seln set = c)
+            (in_counters inp) (st_counts st).
+Proof. exact column_from_one_spec. Qed.
+Print Assumptions C05_sb_column_meaning.
+
+Theorem C05_sb_median_two_meaning : forall inp st,
+  median_from_two inp st = true <->
+  exists s1 s2, In s1 (indexed (in_durs inp)) /\ In s2 (indexed (in_durs inp)) /\ fst s1 <> fst s2 /\
+    snd s1 = mid_lo (in_durs inp) /\ snd s2 = mid_hi (in_durs inp) /\
+    Forall2 (fun x v => xq_close x (Fin v (2 * in_size inp)) = true)
+            (column_of median st)
+            (map (fun p => fst p + snd p)
+                 (combine (figures_of_index inp (fst s1)) (figures_of_index inp (fst s2)))) /\
+    Forall2 (fun ci o => forall set, o = Some set ->
+               exists c1 c2, count_for ci s1 = Some c1 /\ count_for ci s2 = Some c2 /\
+                             median set = (c1 + c2) / 2)
+            (in_counters inp) (st_counts st).
+Proof. exact median_from_two_spec. Qed.
+Print Assumptions C05_sb_median_two_meaning.
+
+(** [xq_close x y]: within relative 1e-12 of the exact value, denominators non-zero. *)
+Theorem C05_sb_close_meaning : forall a b c d,
+  xq_close (Fin a b) (Fin c d) = true <->
+  b <> 0 /\ d <> 0 /\
+  (a * d <= c * b -> (c * b - a * d) * 10 ^ 12 <= c * b) /\
+  (c * b <= a * d -> (a * d - c * b) * 10 ^ 12 <= c * b).
+Proof. exact xq_close_spec. Qed.
+Print Assumptions C05_sb_close_meaning.
